@@ -166,6 +166,83 @@ def native_stale_delete(ctx):
     return False, spath, 'held natively'
 
 
+def check_files_removed(ctx):
+    """the files of a deleted keyspace disappear when its last handle goes away - and only then, and only for a deleted keyspace"""
+    pat = r'^keyspace::<impl>::drop$'
+    ob = ctx.ob('deleted/files-removed', 'KeyspaceInner::drop: iff the keyspace was deleted, its manifest marker is removed first and then its whole folder (the folder of this keyspace\'s own tree); '
+                'a keyspace that was not deleted loses no file', [pat])
+    try:
+        cands = [f for f in ctx.prog.fns.values() if f.key == 'keyspace::<impl>::drop']
+        fn = cands[0]
+    except Exception as e:      # noqa
+        ob.status = 'undecided'; ob.detail = f'drop impl not found: {e!r}'; return
+    ex = ctx.executor(loop_bound=2)
+    paths = ex.run(fn)
+    ctx.functions_encoded[fn.key] = ctx.prog.hashes.get(fn.name, '')
+    ctx.paths_total += len(paths); ctx.solver_s += ex.stats['solver_s']; ctx.queries += ex.stats['solver_calls']
+    bad = []
+    for p in paths:
+        if p.status != 'returned':
+            continue
+        ob.reach += 1
+        loads = [e for e in p.events if e.kind == 'ATOMIC_LOAD' and 'is_deleted' in obj_name(e)]
+        rmf = [e for e in p.events if e.kind == 'FS_REMOVE_FILE']
+        rmd = [e for e in p.events if e.kind == 'FS_REMOVE_DIR_ALL']
+        if not loads:
+            if rmf or rmd:
+                bad.append((p, 'files are removed without looking at the deleted flag'))
+            continue
+        flag = loads[0].res
+        deleted = ctx.sat(p.pc + [z3.Not(flag)], ob)[0] != z3.sat
+        alive = ctx.sat(p.pc + [flag], ob)[0] != z3.sat
+        if alive and (rmf or rmd):
+            bad.append((p, 'dropping the last handle of a keyspace that was NOT deleted removes files')); continue
+        if deleted:
+            # fault-free, marker present: marker first, then the folder
+            te = [e for e in p.events if e.kind == 'CALL' and e.args.get('callee', '').endswith('try_exists')]
+            marker_there = False
+            if te and isinstance(te[0].res, EnumV):
+                r = te[0].res
+                okb = r.payloads['Ok'].fields[0].val if 'Ok' in r.payloads and 0 in r.payloads['Ok'].fields else None
+                d = bv(r.disc) if isinstance(r.disc, int) else r.disc
+                marker_there = z3.is_expr(okb) and ctx.sat(p.pc + [z3.Not(z3.And(d == 0, okb))], ob)[0] != z3.sat
+            faults = [e for e in rmf if getattr(e, 'fault', None) is not None and ctx.sat(p.pc + [z3.Not(e.fault)], ob)[0] != z3.sat]
+            if not marker_there or faults:
+                continue
+            if not rmf:
+                bad.append((p, 'the manifest marker of a deleted keyspace is not removed when its last handle is dropped')); continue
+            if not rmd:
+                bad.append((p, 'a deleted keyspace\'s folder is not removed when its last handle is dropped: its files stay on disk (and a later directory scan meets them again)')); continue
+            if rmd and rmf and rmf[0].idx > rmd[0].idx:
+                bad.append((p, 'the folder is removed before the manifest marker: a crash in between can leave a keyspace that looks initialised')); continue
+    if ob.reach == 0:
+        ob.status = 'undecided'; ob.detail = 'vacuous'
+    elif not bad:
+        ob.status = 'discharged'; ob.sample = {'paths': ob.reach}
+    else:
+        ctx.candidate(ob, 'keyspace-drop/files-of-deleted-keyspace', f'{ob.id}: {bad[0][1]}', confirm=lambda: native_files_removed(ctx))
+
+
+def native_files_removed(ctx):
+    L = ['dir $DIR/db', 'open workers=0', 'ks a', 'ks b', 'insert a 6b31 31', 'insert b 6b31 41', 'rotate b', 'worker_drain', 'ls $DIR/db/keyspaces', 'delete_ks b keep', 'ls $DIR/db/keyspaces',
+         'ks_drop b#old', 'ls $DIR/db/keyspaces', 'ks_drop a', 'ls $DIR/db/keyspaces', 'close', 'open workers=0', 'ls $DIR/db/keyspaces', 'ks a', 'dump a', 'close']
+    spath, out = ctx.run_scenario('\n'.join(L) + '\n', tag='files-removed')
+    if any(c == 'CRASH' for _i, c, _r in out):
+        return True, spath, 'crash: ' + out[-1][2][-200:]
+    ls = [r for _i, c, r in out if c == 'ls']
+    d = [r for _i, c, r in out if c == 'dump']
+    if len(ls) >= 5:
+        if '2' not in ls[1].strip('[]').split(','):
+            return True, spath, f'the folder of the deleted keyspace vanished while a handle was still alive: {ls[1]}'
+        if '2' in ls[2].strip('[]').split(','):
+            return True, spath, f'the folder of the deleted keyspace (id 2) is still there after its last handle was dropped: {ls[2]}'
+        if '1' not in ls[3].strip('[]').split(',') or '1' not in ls[4].strip('[]').split(','):
+            return True, spath, f'the folder of a keyspace that was not deleted disappeared: {ls[3]} / after reopen {ls[4]}'
+    if d and d[0] != '[6b31:31]':
+        return True, spath, f'content of the surviving keyspace after reopen: {d[0]}'
+    return False, spath, 'held natively'
+
+
 def check_meta_removed(ctx):
     pat = r'^meta_keyspace::<impl>::remove_keyspace$|MetaKeyspace::remove_keyspace$'
     ob = ctx.ob('delete/meta-removed', 'MetaKeyspace::remove_keyspace: on success a tombstone was ingested for the id->name key (b\'n\' ++ id) and for every '
@@ -537,13 +614,14 @@ def native_lifecycle(ctx):
 
 def run(ctx):
     ctx.assumptions += [
-        'the directory of a deleted keyspace is removed when its last handle is dropped (KeyspaceInner::drop; file system by contract F2)',
+        'file system by contract F2 (remove_file / remove_dir_all either succeed or fail)',
         'bounds of the recovery harness: 2 keyspaces, 2 journal batches, ids symbolic',
     ]
     check_isolation(ctx)
     check_deleted(ctx)
     check_delete_order(ctx)
     check_delete_own(ctx)
+    check_files_removed(ctx)
     check_meta_removed(ctx)
     check_create_atomic(ctx)
     check_recover_keyspaces(ctx)
@@ -554,6 +632,8 @@ def run(ctx):
 
 
 MUTANTS = [
+    {'name': 'folder of a deleted keyspace is kept', 'edits': [('src/keyspace/mod.rs', "                            if let Err(e) = std::fs::remove_dir_all(path) {", "                            if let Err(e) = std::fs::create_dir_all(path) {")]},
+    {'name': 'files removed when a live keyspace handle is dropped', 'edits': [('src/keyspace/mod.rs', "        if self.is_deleted.load(std::sync::atomic::Ordering::Acquire) {\n            let path = &self.tree.tree_config().path;", "        if !self.is_deleted.load(std::sync::atomic::Ordering::Acquire) {\n            let path = &self.tree.tree_config().path;")]},
     {'name': 'revert: ids in journal records do not raise the id counter (active journal)', 'edits': [('src/db.rs', "                        db.keyspace_id_counter.fetch_max(keyspace_id + 1);", "                        let _ = keyspace_id;")]},
     {'name': 'insert ignores the deleted flag', 'edits': [('src/keyspace/mod.rs', "        if self.is_deleted.load(Ordering::Relaxed) {\n            return Err(crate::Error::KeyspaceDeleted);\n        }\n\n        let key = key.into();\n        let value = value.into();", "        let key = key.into();\n        let value = value.into();")]},
     {'name': 'delete_keyspace does not flag the handle', 'edits': [('src/db.rs', "        handle\n            .is_deleted\n            .store(true, std::sync::atomic::Ordering::Release);", "")]},
